@@ -240,6 +240,21 @@ def r11_3(ctx):
         vi = next((i for i, x in enumerate(seq) if x.startswith("VERSION")), None)
         if vi is not None and bi < mi < vi and "COMMIT" not in seq[mi:vi]:
             atomic = True
+    # version bookkeeping: resume after the last recorded version, record each migration under its own index
+    from .common import pm_of
+    pma = pm_of(p, am)
+    book = [
+        ("version = 0", "a database without version rows starts at migration 0"),
+        ("row = await self.fetchone('SELECT version FROM versions ORDER BY version DESC LIMIT 1')", "the highest recorded version is read"),
+        ("if row:\n    version = int(row[0]) + 1", "migrations resume right after the highest recorded version"),
+        ("for idx, migration in enumerate(MIGRATIONS[version:], start=version):\n    ...", "the remaining migrations run in order, numbered by their position in MIGRATIONS"),
+        ("await self.conn.execute('insert into versions (version) values (?)', str(idx))", "each migration is recorded under its own number"),
+    ]
+    for pat, what in book:
+        if pma.has(pat):
+            ctx.ok("R11.3", where(am), what)
+        else:
+            ctx.bad("R11.3", am.module, am.qual, what, f"migration bookkeeping lost: {what} - a restart re-runs an applied migration (start-up fails) or skips one that was never applied", am.node.lineno)
     # idempotent alternative
     mig = p.module_constant("db", "MIGRATIONS")
     names = [e.id for e in mig.elts] if isinstance(mig, ast.List) else []
@@ -261,6 +276,14 @@ def r11_3(ctx):
                         non_idem.append((nm, sql[:50]))
     if atomic:
         ctx.ok("R11.3", where(am), "each migration runs inside an explicit transaction together with its version row: " + " -> ".join(seq))
+        # the transaction is closed on both outcomes: COMMIT after the version row, ROLLBACK in a handler that re-raises
+        vi = next(i for i, x in enumerate(seq) if x.startswith("VERSION"))
+        committed = "COMMIT" in seq[vi + 1:] or seq[vi].endswith("+COMMIT")
+        rolled = any(isinstance(h, ast.ExceptHandler) and any(call_name(c) == "rollback" for st in h.body for c in calls_in(st)) and any(isinstance(x, ast.Raise) for st in h.body for x in ast.walk(st)) for h in ast.walk(lp))
+        if committed and rolled:
+            ctx.ok("R11.3", where(am), "the migration's transaction is committed after its version row and rolled back (and the error re-raised) on failure")
+        else:
+            ctx.bad("R11.3", am.module, am.qual, "BEGIN ... commit() / except: rollback(); raise", "the explicit transaction around a migration is not closed on every outcome (" + ("no commit after the version row" if not committed else "no rollback + re-raise on failure") + "): the next BEGIN fails inside the open transaction, or a failed migration leaves its partial DDL pending for whoever commits next", lp.lineno)
     elif not non_idem:
         ctx.ok("R11.3", where(am), "every DDL statement of every migration is idempotent")
     else:
